@@ -23,6 +23,12 @@ theorem ok_fin4 (P : Fin 4 → Prop) : (∀ i, P i) ↔ P 0 ∧ P 1 ∧ P 2 ∧ 
   · intro h; exact ⟨h 0, h 1, h 2, h 3⟩
   · rintro ⟨a, b, c, d⟩ i; fin_cases i <;> assumption
 
+theorem fin_succ_three_eq_four : Fin.succ (3 : Fin 4) = (4 : Fin 5) := rfl
+theorem ok_fin5 (P : Fin 5 → Prop) : (∀ i, P i) ↔ P 0 ∧ P 1 ∧ P 2 ∧ P 3 ∧ P 4 := by
+  constructor
+  · intro h; exact ⟨h 0, h 1, h 2, h 3, h 4⟩
+  · rintro ⟨a, b, c, d, e⟩ i; fin_cases i <;> assumption
+
 /-- close a goal that is a conjunction of `True`s and non-vanishing side conditions -/
 syntax "ok_close" "(" tacticSeq ")" : tactic
 macro_rules
